@@ -111,9 +111,9 @@ def callback_composition_order(ctx):
     aln = q.names_defined_by(s, lambda v: isinstance(v, ast.List) and any(norm(e) == 'self._release_semaphore' for e in v.elts))
     AL = aln[0] if len(aln) == 1 else 'on_done_after_calls'
     cn = (q.names_defined_by(s, lambda v: isinstance(v, ast.Call) and norm(v.func) == 'CRTTransferCoordinator') or ['coordinator'])[0]
-    apps = [c for c in own_calls(s.node) if (dotted(c.func) or '') == f'{AL}.append']
-    ok = len(apps) == 1 and (q.ntext(s, apps[0].args[0]) == f'AfterDoneHandler({cn})') \
-        and not q.guards(apps[0]) and not q.enclosing_trys(apps[0])
+    # the after-list is [release, AfterDoneHandler(coordinator)] - written as one display or display + unconditional append
+    els = q.list_elements(s, AL)
+    ok = els is not None and [q.ntext(s, e) for e in els] == ['self._release_semaphore', f'AfterDoneHandler({cn})']
     ctx.ob(s, 'on_done_after_calls.append(AfterDoneHandler(coordinator)) - after the release, unconditionally', ok, 'done-callbacks-complete would be signalled before the permit is released / not at all')
     gobj = ctx.func('crt.S3ClientArgsCreator._get_make_request_args_get_object')
     apps = [c for c in own_calls(gobj.node) if isinstance(c.func, ast.Attribute) and c.func.attr == 'append' and c.args and norm(c.args[0]).startswith('RenameTempFileHandler(')]
@@ -128,18 +128,27 @@ def callback_composition_order(ctx):
 def shutdown_waits_for_callbacks(ctx):
     """_shutdown waits for every transfer's done callbacks in finally; every submitted
     coordinator is appended to _future_coordinators on both continuations."""
-    f = ctx.func('crt.CRTTransferManager._shutdown')
-    cs = [c for c in own_calls(f.node) if (dotted(c.func) or '') == 'self._wait_transfers_done']
-    ok = len(cs) == 1 and any(field == 'finalbody' for _, field in q.enclosing_trys(cs[0])) and not q.guards(cs[0])
-    ctx.ob(f, 'self._wait_transfers_done() in finally', ok, 'shutdown could return while done callbacks are still running')
-    fin = [c for c in own_calls(f.node) if (dotted(c.func) or '') == 'self._finish_transfers']
-    ctx.ob(f, 'self._finish_transfers() inside the try', len(fin) == 1 and any(field == 'body' for _, field in q.enclosing_trys(fin[0])), 'shutdown must wait for the transfers themselves')
-    can = [c for c in own_calls(f.node) if (dotted(c.func) or '') == 'self._cancel_transfers' and not q.in_handler(c)]
-    ctx.ob(f, 'cancel requested -> self._cancel_transfers() first', len(can) == 1 and q.guards_imply(q.guards(can[0]), 'cancel'), 'shutdown(cancel=True) must cancel')
-    w = ctx.func('crt.CRTTransferManager._wait_transfers_done')
-    cs = [c for c in own_calls(w.node) if (dotted(c.func) or '').endswith('wait_until_on_done_callbacks_complete')]
-    ok = len(cs) == 1 and isinstance(q.in_loop(cs[0]), ast.For) and norm(q.in_loop(cs[0]).iter) == 'self._future_coordinators' and not q.guards(cs[0])
-    ctx.ob(w, 'wait for the done callbacks of every tracked coordinator', ok, 'some transfer is not waited for')
+    # on the fully expanded _shutdown (the three small helpers inlined, however the method is cut)
+    x = ctx.expanded()
+    f = x.func('crt.CRTTransferManager._shutdown')
+    from ..ir import ancestors as _anc
+
+    def over_all(c, unless_done=False):
+        lp = q.in_loop(c)
+        inner = [(e, p) for e, p in q.guards(c) if any(a is lp for a in _anc(e))] if lp is not None else []
+        if unless_done:
+            inner = [(e, p) for e, p in inner if not (norm(e).endswith('.done()') and p is False)]
+        return isinstance(lp, ast.For) and norm(lp.iter) == 'self._future_coordinators' and isinstance(lp.target, ast.Name) \
+            and isinstance(c.func, ast.Attribute) and norm(c.func.value) == lp.target.id and not inner
+    cs = [c for c in own_calls(f.node) if (dotted(c.func) or '').endswith('wait_until_on_done_callbacks_complete')]
+    ok = len(cs) == 1 and over_all(cs[0]) and any(field == 'finalbody' for _, field in q.enclosing_trys(cs[0]))
+    ctx.ob(f.qualname, 'self._wait_transfers_done() in finally', ok, 'shutdown could return while done callbacks are still running', node=f.node)
+    ctx.ob(f.qualname, 'wait for the done callbacks of every tracked coordinator', ok, 'some transfer is not waited for', node=f.node)
+    fin = [c for c in own_calls(f.node) if isinstance(c.func, ast.Attribute) and c.func.attr == 'result' and over_all(c) and not q.in_handler(c)
+           and not any(field == 'finalbody' for _, field in q.enclosing_trys(c))]
+    ctx.ob(f.qualname, 'self._finish_transfers() inside the try', len(fin) == 1 and any(field == 'body' for _, field in q.enclosing_trys(fin[0])), 'shutdown must wait for the transfers themselves', node=f.node)
+    can = [c for c in own_calls(f.node) if isinstance(c.func, ast.Attribute) and c.func.attr == 'cancel' and over_all(c, unless_done=True) and not q.in_handler(c)]
+    ctx.ob(f.qualname, 'cancel requested -> self._cancel_transfers() first', len(can) == 1 and q.guards_imply(q.guards(can[0]), 'cancel'), 'shutdown(cancel=True) must cancel', node=f.node)
     s = ctx.func('crt.CRTTransferManager._submit_transfer')
     g = ctx.cfg(s)
     cn = (q.names_defined_by(s, lambda v: isinstance(v, ast.Call) and norm(v.func) == 'CRTTransferCoordinator') or ['coordinator'])[0]
